@@ -262,6 +262,11 @@ func zzvRun(depth, fan, files int, mixKinds bool) {
 	verifrt.Reach("end")
 }
 
+// HarnessC14DiffApplyFlat: flat directories with three names (link sorting, several changes in one directory).
+func HarnessC14DiffApplyFlat() {
+	zzvRun(verifrt.Param("DEPTH", 1), verifrt.Param("FAN", 3), verifrt.Param("FILES", 2), false)
+}
+
 // HarnessC14DiffApplyDeep: the same over deeper, narrower trees (three-segment paths).
 func HarnessC14DiffApplyDeep() {
 	zzvRun(verifrt.Param("DEPTH", 3), verifrt.Param("FAN", 2), verifrt.Param("FILES", 2), false)
